@@ -441,6 +441,8 @@ def getunit(v, unit='rad'):
         return v
     elif unit == "deg":
         if isinstance(v, np.ndarray) or isscalar(v):
+            if isinstance(v, (np.ndarray, np.floating)) and v.dtype.kind == 'f':
+                v = v.astype(np.float64)  # convert in double precision whatever the element type
             return v * math.pi / 180
         else:
             return [x * math.pi / 180 for x in v]
